@@ -151,6 +151,6 @@ register(c)
 # c_selector_tree.py; until a method's tree proof is in place it is marked here.
 from pyvc.contract import REGISTRY as _R
 PENDING_TREE_PROOF = ['clear', 'copy', '__setitem__', 'matching_selectors',
-                      'get_match', 'minimal_selector']
+                      'minimal_selector']     # cleared one by one in c_selector_tree.py
 for _n in PENDING_TREE_PROOF:
   _R['selector_map.py::SelectorMap.' + _n].skip_proof = 'tree proof pending'
